@@ -189,6 +189,10 @@ def single_step_cases(tier):
     yield from single_steps(tier)
 
 
+# (what round 8 added to the case domain; part of the evidence text)
+RULE_ROUND8 = ' One generated forest in 20 (60 in the thorough tier) is a BIG one (gen.big_specs: a child list of 11..300 nodes, that many clones of one data object, more than 256 nodes), with node references aimed at notable positions of the long child lists. Part big-trees: 1-3 operations (weighted towards filter / remove / move / bulk copies) on a big tree. Part python-O: the histories and big-trees parts once more in a child interpreter with PYTHONOPTIMIZE=1 (asserts stripped). Filter predicates also answer SkipBranch(and_self=False); node_id is also passed as a numeric str; data flavours include ints whose hash is not the value and a DictWrapper around a hashable dict subclass.'
+RULE = RULE + RULE_ROUND8
+
 PARTS = [
     Part("deep-removal", run_deep, enum=deep_cases),
     Part("single-steps", run, enum=single_step_cases),
